@@ -409,6 +409,20 @@ pub fn lookup(name: &str) -> Option<OpFn> {
             }
             ok(r)
         },
+        // ---------------------------------------------------------------- C13 (exact part)
+        "o.rad.modular" => |a| { let (x, y) = (a.x(), a.x()); angle_modular(Rad(x), Rad(y), |r| r.0) },
+        "o.deg.modular" => |a| { let (x, y) = (a.x(), a.x()); angle_modular(Deg(x), Deg(y), |r| r.0) },
+        "o.angle.convert" => |a| {
+            let x = a.x();
+            let eps4 = X::konst(crate::big::Rat::from_frac(1, 1i64 << 50));
+            let rt: Rad<X> = Deg::from(Rad(x)).into();
+            let rt2: Deg<X> = Rad::from(Deg(x)).into();
+            let ax = if x.val().neg { -x } else { x };
+            let le = |d: X, b: X| { let d = if d.val().neg { -d } else { d }; d.val().cmp(&b.val()) != std::cmp::Ordering::Greater };
+            let full: Deg<X> = Rad::<X>::full_turn().into();
+            ok(vec![le(rt.0 - x, eps4 * ax), le(rt2.0 - x, eps4 * ax), le(full.0 - X::int(360), eps4 * X::int(360)),
+                    Deg::<X>::full_turn().0.val() == crate::big::Rat::from_i64(360)])
+        },
         // ---------------------------------------------------------------- C10
         "o.proj.ortho" => |a| {
             let v: Vec<X> = (0..6).map(|_| a.x()).collect();
@@ -554,6 +568,39 @@ pub fn lookup(name: &str) -> Option<OpFn> {
     })
 }
 
+/// C13 modular clauses for one unit, exact rationals
+fn angle_modular<A: Angle<Unitless = X> + Copy>(x: A, y: A, num: fn(A) -> X) -> Out {
+    use std::cmp::Ordering::*;
+    let t = num(A::full_turn());
+    let zero = X::int(0);
+    let two = X::int(2);
+    let is_int = |q: X| q.val().den.is_one();
+    let cmp = |p: X, q: X| p.val().cmp(&q.val());
+    let n = num(x.normalize());
+    let s = num(x.normalize_signed());
+    let mut r = vec![
+        cmp(n, zero) != Less && cmp(n, t) == Less,                      // normalize in [0, T)
+        is_int((num(x) - n) / t),                                        // differs by whole turns
+        cmp(s, -(t / two)) == Greater && cmp(s, t / two) != Greater,     // normalize_signed in (-T/2, T/2]
+        is_int((num(x) - s) / t),
+        cmp(num(x.opposite()), num((x + A::turn_div_2()).normalize())) == Equal,
+    ];
+    // bisect: equal signed distance to both, at most a quarter turn from each, result normalised
+    let b = x.bisect(y);
+    let d1 = num((b - x).normalize_signed());
+    let d2 = num((y - b).normalize_signed());
+    let ad = if d1.val().neg { -d1 } else { d1 };
+    r.push(cmp(d1, d2) == Equal);
+    r.push(cmp(ad, t / X::int(4)) != Greater);
+    r.push(cmp(num(b), zero) != Less && cmp(num(b), t) == Less);
+    // turn_div_k * k = full turn
+    r.push(cmp(num(A::turn_div_2()) * two, t) == Equal);
+    r.push(cmp(num(A::turn_div_3()) * X::int(3), t) == Equal);
+    r.push(cmp(num(A::turn_div_4()) * X::int(4), t) == Equal);
+    r.push(cmp(num(A::turn_div_6()) * X::int(6), t) == Equal);
+    ok(r)
+}
+
 trait PerpLike {
     fn perp_dot_like(self, o: Self) -> X;
 }
@@ -569,7 +616,7 @@ pub fn names() -> Vec<String> {
     let mut v: Vec<String> = ["o.v3.lagrange", "o.v3.cross_cross", "o.v3.cross_orth", "o.v.dot_bilinear",
         "o.m4.constructors", "o.m3.constructors", "o.m.embed", "o.p3.homogeneous",
         "o.q.algebra", "o.q.invert", "o.q.rotate", "o.q.compose", "o.q.same_rotation", "o.q.roundtrip",
-        "o.proj.ortho", "o.proj.frustum", "o.proj.perspective", "o.proj.planar", "o.dq.matrix", "o.db2.matrix", "o.m4.transform", "o.m3.transform",
+        "o.rad.modular", "o.deg.modular", "o.angle.convert", "o.proj.ortho", "o.proj.frustum", "o.proj.perspective", "o.proj.planar", "o.dq.matrix", "o.db2.matrix", "o.m4.transform", "o.m3.transform",
         "o.dq.laws", "o.dq.inverse", "o.db3.laws", "o.db3.inverse", "o.db2.laws", "o.db2.inverse"]
         .iter()
         .map(|s| s.to_string())
